@@ -295,12 +295,21 @@ class DescriptorTransaction(_TransactionBase):
                 if tr_item.new is None and tr_item.old is not None:
                     removed_handles.update(
                         descr.Handle for descr in self._mdib.get_all_descriptors_in_subtree(tr_item.old))
+            created_handles = {tr_item.new.Handle for tr_item in self.descriptor_updates.values()
+                               if tr_item.old is None and tr_item.new is not None}
             for tr_item in self.descriptor_updates.values():
                 if tr_item.new is not None and (tr_item.new.Handle in removed_handles
                                                 or tr_item.new.parent_handle in removed_handles):
                     # nothing has been changed so far => the mdib stays as it was
                     msg = (f'descriptor {tr_item.new.Handle} is created or updated inside a subtree '
                            f'that is removed in the same transaction')
+                    raise ApiUsageError(msg)
+                if tr_item.old is None and tr_item.new is not None and tr_item.new.parent_handle is not None \
+                        and tr_item.new.parent_handle not in created_handles \
+                        and tr_item.new.parent_handle not in self._mdib.descriptions.handle:
+                    # every descriptor except a root has an existing parent
+                    msg = (f'parent {tr_item.new.parent_handle} of new descriptor {tr_item.new.Handle} '
+                           f'does not exist')
                     raise ApiUsageError(msg)
             self._mdib.mdib_version = self.new_mdib_version
             # need to know all to be deleted and to be created descriptors
